@@ -53,6 +53,9 @@ pub struct HostSide {
     pub xattr: bool,
     pub no_open: bool,
     pub no_opendir: bool,
+    /// writeback caching negotiated: the client kernel owns O_APPEND (it sends every WRITE with the offset the data
+    /// has to go to); the host equivalent of a handle never has O_APPEND
+    pub wb: bool,
 }
 
 pub fn fstat(fd: i32) -> Option<libc::stat64> {
@@ -76,6 +79,10 @@ pub fn i(op: &J, k: &str) -> i64 {
     op[k].as_i64().unwrap_or(-1)
 }
 pub fn name_bytes(op: &J, k: &str) -> Vec<u8> {
+    // names that are not UTF-8 travel as bytes next to their lossy text: <k>b = [bytes]
+    if let Some(a) = op[format!("{}b", k)].as_array() {
+        return a.iter().map(|x| x.as_u64().unwrap_or(0) as u8).collect();
+    }
     // "long" names are sent as a short description: {"rep": "n", "len": 300}
     match &op[k] {
         J::String(x) => x.as_bytes().to_vec(),
@@ -142,7 +149,7 @@ impl HostSide {
         let fd = hi(unsafe { libc::open(c.as_ptr(), libc::O_PATH | libc::O_NOFOLLOW | libc::O_CLOEXEC) });
         assert!(fd >= 0, "open shadow export");
         let st = fstat(fd).unwrap();
-        HostSide { ns: vec![Some(fd)], hs: Vec::new(), root_key: (st.st_dev, st.st_ino), xattr: true, no_open: false, no_opendir: false }
+        HostSide { ns: vec![Some(fd)], hs: Vec::new(), root_key: (st.st_dev, st.st_ino), xattr: true, no_open: false, no_opendir: false, wb: false }
     }
 
     fn node(&self, op: &J, k: &str) -> Option<i32> {
@@ -216,6 +223,15 @@ impl HostSide {
     }
 
     pub fn step(&mut self, op: &J) -> StepRes {
+        let stripped;
+        let op = if self.wb && !op["flags"].is_null() && matches!(op["op"].as_str().unwrap_or(""), "open" | "create" | "read" | "write") {
+            let mut o2 = op.clone();
+            o2["flags"] = json!(op["flags"].as_i64().unwrap_or(0) & !(libc::O_APPEND as i64));
+            stripped = o2;
+            &stripped
+        } else {
+            op
+        };
         let o = s(op, "op");
         let uid = u(op, "uid") as u32;
         let gid = u(op, "gid") as u32;
